@@ -351,6 +351,32 @@ pub fn c01(c: &Collector, g: &mut Guard) {
         cc.count("osc_shape_cases", n);
         cc.outcomes(&outcomes);
     });
+    // ---------------------------------------------------------------- (i-c) long inputs
+    let longs = crate::props3::long_streams();
+    let longb = crate::props3::long_byte_streams();
+    fork_map_c01(c, "long", 16, timeout, |part, cc| {
+        let mut outcomes = HashSet::new();
+        let mut n = 0u64;
+        let mut all: Vec<Vec<u8>> = longs.iter().map(|(_, t)| t.as_bytes().to_vec()).collect();
+        all.extend(longb.iter().map(|(_, b)| b.clone()));
+        for (i, bytes) in all.iter().enumerate() {
+            if i % 16 != part {
+                continue;
+            }
+            for &(cols, lines) in &[(5u32, 3u32), (80, 24), (300, 3)] {
+                for utf8 in [true, false] {
+                    stream_case(cc, cols, lines, &[bytes.clone()], utf8, "E5.long", &mut outcomes);
+                    n += 1;
+                }
+                let chunks: Vec<Vec<u8>> = bytes.chunks(1000).map(|x| x.to_vec()).collect();
+                stream_case(cc, cols, lines, &chunks, true, "E5.long", &mut outcomes);
+                n += 1;
+            }
+        }
+        cc.add_transitions(n);
+        cc.count("long_cases", n);
+        cc.outcomes(&outcomes);
+    });
     // ---------------------------------------------------------------- (ii) E3 byte strings, all chunkings
     let b = byte_alphabet();
     let nb = if thorough { 4 } else { 3 };
@@ -625,6 +651,7 @@ pub fn c01(c: &Collector, g: &mut Guard) {
     g.need(c, "word_cases");
     g.need(c, "byte_cases");
     g.need(c, "osc_shape_cases");
+    g.need(c, "long_cases");
     g.need(c, "macro_cases");
     g.need(c, "wide_param_transitions");
     g.need(c, "resize_transitions");
